@@ -144,6 +144,17 @@ def run(tier):
         ok, res = common.validate_trace("Trace_Reader", "Trace_Reader.cfg", p)
         if ok:
             raise Broken("negative control: a silent corruption trace was accepted by Trace_Reader")
+    # ReaderImpl with an environment that may refuse allocations: the repaired loop never ends a stream early with success;
+    # the code before the repair (a refused scratch buffer returned 0 = end of the stream) exhibits it
+    for cfgname, expect in (("MC_ReaderStream_oom.cfg", True), ("MC_ReaderUnit_oom.cfg", True), ("MC_ReaderStream_oom0.cfg", False)):
+        r = common.tlc("ReaderImpl", cfgname, workers=8, timeout=1500)
+        if r.ok != expect:
+            raise Broken("ReaderImpl/%s: expected %s, got %s" % (cfgname, "no violation" if expect else "the documented counterexample (NoSilentTruncation)", r.violation))
+        ck.add_tlc("ReaderImpl/" + cfgname + (" (allocations may be refused: SequentialPrefix, NoSilentTruncation, NoReleaseBeforeVerify)" if expect else " (early end of the stream with success exhibited, as documented)"), r)
+    # the real reader with every allocation of zchunk's own code refused in turn (once / from there on), judged by RClose
+    from .. import allocfault
+    atrace, aowner, ascripts = allocfault.reader_family(ck, tier, wd, rnd)
+    validate_segments(ck, "C02", atrace, aowner, wd, scripts_by=ascripts)
     # every history of reads, validations, chunk requests and clear_error on one context (MC_Session): the reads judged
     from .. import session
     session.run_session(ck, "C02", "read", tier, wd, rnd)
